@@ -113,9 +113,9 @@ Proof.
     destruct (axis_info _ r); [apply rename_id_shared; exact Hs | exact Hs].
   - unfold ds_set_dims. destruct (negb _); [exact Hs|]. destruct (negb _); [exact Hs|]. destruct (existsb _ ns); [exact Hs|].
     apply (fold_rename_shared (fun st p => rename_id st (fst p) (snd p))); [intros; apply rename_id_shared; assumption | exact Hs].
-  - unfold ds_rename_axes.
-    apply (fold_rename_shared (fun st p => ds_rename_axis (ByName (fst p)) (snd p) st)); [|exact Hs].
-    intros st x Hst. unfold ds_rename_axis. destruct (ds_axis_ref st _); [apply rename_id_shared; exact Hst | exact Hst].
+  - unfold ds_rename_axes. destruct (forallb _ m); [|exact Hs].
+    unfold ds_set_dims. destruct (negb _); [exact Hs|]. destruct (negb _); [exact Hs|]. destruct (existsb _ _); [exact Hs|].
+    apply (fold_rename_shared (fun st p => rename_id st (fst p) (snd p))); [intros; apply rename_id_shared; assumption | exact Hs].
   - unfold ds_set_label. destruct (ds_axis_ref s r); [|exact Hs]. destruct (py_index _ i); [apply shared_with_heap; exact Hs | exact Hs].
   - unfold ds_set_axis. destruct (ds_axis_ref s r) as [id|]; [|exact Hs]. destruct (negb _); [exact Hs|].
     destruct name; [apply rename_id_shared; apply shared_with_heap; exact Hs | apply shared_with_heap; exact Hs].
@@ -529,31 +529,8 @@ Proof.
   destruct (axis_info _ r) as [i|] eqn:Ea; [|exact Hi]. apply rename_id_inv; [exact Hi | apply (Hn v i eq_refl Ea)].
 Qed.
 
-Fixpoint rename_axes_ok (s : dset) (m : list (string * string)) : Prop :=
-  match m with
-  | [] => True
-  | (o, n) :: t =>
-      (forall id, ds_axis_ref s (ByName o) = Ok id -> ~ In n (ds_dims s) \/ n = aname (hget (heap s) id)) /\
-      rename_axes_ok (fst (ds_rename_axis (ByName o) n s)) t
-  end.
-Lemma rename_axes_fold_inv m : forall s (st : res unit), Inv4 s -> (st = Ok tt -> rename_axes_ok s m) ->
-  Inv4 (fst (fold_left (fun (acc : dset * res unit) p => match snd acc with
-                                                         | Ok _ => ds_rename_axis (ByName (fst p)) (snd p) (fst acc)
-                                                         | Err e => acc end) m (s, st))).
-Proof.
-  induction m as [|[o n] t IH]; intros s st Hi Hok; simpl; [exact Hi|].
-  destruct st as [[]|e].
-  - destruct (Hok eq_refl) as [H1 H2].
-    destruct (ds_rename_axis (ByName o) n s) as [s1 st1] eqn:E.
-    assert (Hi1 : Inv4 s1).
-    { assert (G : Inv4 (fst (ds_rename_axis (ByName o) n s))).
-      { unfold ds_rename_axis. destruct (ds_axis_ref s (ByName o)) as [id|] eqn:Er; [|exact Hi]. apply rename_id_inv; [exact Hi | apply H1; reflexivity]. }
-      rewrite E in G. exact G. }
-    apply IH; [exact Hi1|]. intros _. simpl in H2. exact H2.
-  - apply IH; [exact Hi | intros; discriminate].
-Qed.
-Theorem rename_axes_inv m s : Inv4 s -> rename_axes_ok s m -> Inv4 (fst (ds_rename_axes m s)).
-Proof. intros Hi Hok. unfold ds_rename_axes. apply rename_axes_fold_inv; [exact Hi | intros _; exact Hok]. Qed.
+Theorem rename_axes_inv m s : Inv4 s -> Inv4 (fst (ds_rename_axes m s)).
+Proof. intros Hi. unfold ds_rename_axes. destruct (forallb _ m); [apply set_dims_inv; exact Hi | exact Hi]. Qed.
 
 Theorem rename_key_inv o n s : Inv4 s -> (n = o \/ ~ In n (ds_keys s)) -> Inv4 (fst (ds_rename_key o n s)).
 Proof.
@@ -596,13 +573,12 @@ Proof. unfold ds_init. destruct (align _ _ _ _ _); [apply init_fold_inv; apply i
 (* what a history must respect for the bookkeeping invariant: new names are fresh *)
 Definition op_ok (s : dset) (o : dsop) : Prop :=
   match o with
-  | DSet _ _ | DDel _ | DSetLabel _ _ _ _ | DSetDims _ => True
+  | DSet _ _ | DDel _ | DSetLabel _ _ _ _ | DSetDims _ | DRenameAxes _ => True
   | DRenameAxis r n => forall id, ds_axis_ref s r = Ok id -> ~ In n (ds_dims s) \/ n = aname (hget (heap s) id)
   | DReplaceAxis r nx => (forall id, ds_axis_ref s r = Ok id -> aname nx = aname (hget (heap s) id) \/ ~ In (aname nx) (ds_dims s))
                          /\ (forall id, ds_axis_ref s r = Ok id -> In id (dsax s))
   | DVarRenameAxis k r n => forall v i, find_var s k = Some v -> axis_info (var_as_darr s v) r = Ok i ->
                                        ~ In n (ds_dims s) \/ n = aname (hget (heap s) (nth i (vax v) 0))
-  | DRenameAxes m => rename_axes_ok s m
   | DSetAxis r _ _ name => forall id n, ds_axis_ref s r = Ok id -> name = Some n -> ~ In n (ds_dims s) \/ n = aname (hget (heap s) id)
   | DRenameKey o n => n = o \/ ~ In n (ds_keys s)
   | DInit _ => True
@@ -618,7 +594,7 @@ Proof.
   - unfold ds_rename_axis. destruct (ds_axis_ref s r) as [id|] eqn:E; [|exact Hi]. apply rename_id_inv; [exact Hi | apply Hok; reflexivity].
   - apply var_rename_axis_inv; assumption.
   - apply set_dims_inv; exact Hi.
-  - apply rename_axes_inv; assumption.
+  - apply rename_axes_inv; exact Hi.
   - apply set_label_inv; exact Hi.
   - apply set_axis_inv; assumption.
   - apply replace_axis_inv; [exact Hi | apply Hok | apply Hok].
